@@ -63,7 +63,14 @@ def _coll(items, as_set):
         return iter(list(items))
     if as_set == "gen":
         return (x for x in list(items))
-    return set(items) if as_set else list(items)
+    c = set(items) if as_set else list(items)
+    _ARGS.append(c)
+    return c
+
+
+# containers handed to the call of the current event; the caller "reuses" (empties) them as soon as the call is over,
+# so a library that kept the caller's container instead of a copy shows it at the next look
+_ARGS = []
 
 
 DIRS = {"in": sdn.IN, "out": sdn.OUT, "inout": sdn.INOUT, "undef": sdn.UNDEFINED}
@@ -144,7 +151,7 @@ def _(w, e):
 
 @op("set_libraries")
 def _(w, e):
-    need(w, e["on"]).libraries = needs(w, e["xs"])
+    need(w, e["on"]).libraries = _coll(needs(w, e["xs"]), e.get("as_set"))
 
 
 @op("set_top")
@@ -198,7 +205,7 @@ def _(w, e):
 
 @op("set_definitions")
 def _(w, e):
-    need(w, e["on"]).definitions = needs(w, e["xs"])
+    need(w, e["on"]).definitions = _coll(needs(w, e["xs"]), e.get("as_set"))
 
 
 # -- definition ------------------------------------------------------------------
@@ -228,7 +235,7 @@ def _(w, e):
 
 @op("set_ports")
 def _(w, e):
-    need(w, e["on"]).ports = needs(w, e["xs"])
+    need(w, e["on"]).ports = _coll(needs(w, e["xs"]), e.get("as_set"))
 
 
 @op("create_cable")
@@ -256,7 +263,7 @@ def _(w, e):
 
 @op("set_cables")
 def _(w, e):
-    need(w, e["on"]).cables = needs(w, e["xs"])
+    need(w, e["on"]).cables = _coll(needs(w, e["xs"]), e.get("as_set"))
 
 
 @op("create_child")
@@ -282,7 +289,7 @@ def _(w, e):
 
 @op("set_children")
 def _(w, e):
-    need(w, e["on"]).children = needs(w, e["xs"])
+    need(w, e["on"]).children = _coll(needs(w, e["xs"]), e.get("as_set"))
 
 
 # -- port / cable ------------------------------------------------------------------
@@ -316,7 +323,7 @@ def _(w, e):
 
 @op("set_pins")
 def _(w, e):
-    need(w, e["on"]).pins = needs(w, e["xs"])
+    need(w, e["on"]).pins = _coll(needs(w, e["xs"]), e.get("as_set"))
 
 
 @op("create_wire")
@@ -349,7 +356,7 @@ def _(w, e):
 
 @op("set_wires")
 def _(w, e):
-    need(w, e["on"]).wires = needs(w, e["xs"])
+    need(w, e["on"]).wires = _coll(needs(w, e["xs"]), e.get("as_set"))
 
 
 @op("set_direction")
@@ -395,7 +402,7 @@ def _(w, e):
 
 @op("set_wire_pins")
 def _(w, e):
-    need(w, e["on"]).pins = [pinref(w, r) for r in e["pins"]]
+    need(w, e["on"]).pins = _coll([pinref(w, r) for r in e["pins"]], e.get("as_set"))
 
 
 # -- instance -----------------------------------------------------------------------
@@ -517,8 +524,14 @@ def execute(w, ev):
         raise HarnessError("unknown op %r" % ev["op"])
     i = ev["i"]
     w.begin_event(i)
+    del _ARGS[:]
     try:
-        outs = f(w, ev)
+        try:
+            outs = f(w, ev)
+        finally:
+            for c in _ARGS:
+                c.clear()
+            del _ARGS[:]
     except Skip:
         w.count("skipped")
         return "skipped", []
